@@ -75,6 +75,26 @@ CLAIMS = {
 }
 NA = {}
 
+# clauses added in seeding round 6 (DESIGN.md 9.5 "Round 6")
+ROUND6 = {
+ "C03": "The setup callback is reached only by the run that entered Approved (E1 path flag: exactly once, also against a timer expiry during the callback); the trust predicate returns exactly the stored flag (imported from C01.R4).",
+ "C04": "A replaced timer cannot fire or touch the timer bookkeeping (imported from C14.R1-R3).",
+ "C05": "IPv4 link-local addresses survive the address filter (imported from C17.R2).",
+ "C06": "The bytes delivered to the SHIP layer are the whole message as returned by the websocket library (no limiting reader, no sub-slice).",
+ "C07": "Every iteration of the member/element loops emits its child (no value-dependent skip).",
+ "C08": "A local close never reports upward (imported from C11.R7) and the close routine is entered and releases on every path (imported from C13.R1).",
+ "C09": "Every access to the per-SKI record uses the normalised SKI (imported from C15.R1).",
+ "C10": "Only the initial state maps to ConnectionStateQueued (imported from C18.R3, exhaustive over all state constants).",
+ "C12": "The escape arm of the enqueue select returns a provably non-nil error.",
+ "C13": "The wrapper of the close-once enters it on every path; callbacks into the SHIP layer are made with no transport mutex held on any path (interprocedural may-locksets); the connection is marked and closed before the error is told (imported from C12.R6).",
+ "C14": "Every run of the close routine stops the timer (imported from C04.R3).",
+ "C16": "Every parsed category is kept; the TXT list handed to the provider is a literal extended by appends only.",
+ "C17": "TXT items are split at the first '=' only (imported from C16.R2); the visible-services and known-entries lists take every reported entry; IPv4 link-local addresses are kept.",
+ "C18": "Only the initial state maps to Queued; every access to the per-SKI record uses the normalised SKI (imported from C15.R1).",
+ "C19": "Provider methods are called with no manager mutex held on any path.",
+ "C20": "Standard-library objects that are not safe for concurrent use, stored in shared structs, have all method calls under one mutex.",
+}
+
 # clauses added in seeding round 5 (DESIGN.md 9.5 "Round 5")
 ROUND5 = {
  "C01": "Registry deletes are made under an identity check in the same critical section (imported from C11.R3).",
@@ -106,6 +126,8 @@ for p in props:
         tech, text, ref = CLAIMS[i]
         if i in ROUND5:
             text = text + " Round 5: " + ROUND5[i]
+        if i in ROUND6:
+            text = text + " Round 6: " + ROUND6[i]
         checks.append({
             "property_id": i,
             "quick_cmd": f"./check.sh {i} quick",
